@@ -48,8 +48,14 @@ TERM = {
     'import_ImportError': None,
     'import_SyntaxError': None,
     'import_SystemExit': None,
+    'import_pathins_then_raises': None,
+    'import_pathapp_then_ImportError': None,
 }
 IMPORT_SRC = {
+    # two cooperating conditions: the module edits sys.path itself *and* then fails to import; the library's
+    # temporary entry must still go away, the module's own edit is the module's business and stays
+    'import_pathins_then_raises': 'import sys\nsys.path.insert(0, "/nonexistent_zz")\nraise ValueError("late")\n',
+    'import_pathapp_then_ImportError': 'import sys\nsys.path.append("/nonexistent_yy")\nimport nonexistent_module_xv12c\n',
     'import_ImportError': 'import nonexistent_module_xv12\n',
     'import_SyntaxError': 'def (:\n',
     'import_SystemExit': 'raise SystemExit(4)\n',
@@ -96,7 +102,7 @@ def restore(before):
     sys.excepthook = before['sys.excepthook']
 
 
-def run_doctest_case(lines, on_error, verbose, modsrc=None, tag='c12'):
+def run_doctest_case(lines, on_error, verbose, modsrc=None, tag='c12', path_edit=None):
     """returns (how it ended, leaked keys)"""
     from xdoctest.doctest_example import DocTest
     with contextlib.ExitStack() as stack:
@@ -125,7 +131,11 @@ def run_doctest_case(lines, on_error, verbose, modsrc=None, tag='c12'):
                     raise
                 how = 'raised:' + type(ex).__name__
             after = snap()
-            bad = diff(before, after)
+            exp = dict(before)
+            if path_edit:        # the module under test edits sys.path itself before failing: that edit stays
+                exp['sys.path'] = ([path_edit[1]] + before['sys.path']) if path_edit[0] == 'front' else (
+                    before['sys.path'] + [path_edit[1]])
+            bad = diff(exp, after)
         finally:
             restore(before)
             sys.stdout = saved_out
@@ -167,7 +177,9 @@ class OutcomeSpec(Spec):
         else:
             tl = TERM[term]
         lines = PREFIX[prefix] + tl + (['>>> y = 2'] if pos == 'middle' else [])
-        how, bad, t = run_doctest_case(lines, on_error, verbose, modsrc)
+        how, bad, t = run_doctest_case(lines, on_error, verbose, modsrc,
+                                       path_edit={'import_pathins_then_raises': ('front', '/nonexistent_zz'),
+                                                  'import_pathapp_then_ImportError': ('end', '/nonexistent_yy')}.get(term))
         atoms = []
         for k in bad:
             atoms.append({'sig': 'leak:%s:after-%s' % (k, term if term.startswith('import_') else how.split(':')[0]),
@@ -223,6 +235,9 @@ class AfterPoisonSpec(Spec):
 
 MODS = {
     'good': 'X = 1\n',
+    'pathins_raises': 'import sys\nsys.path.insert(0, "/nonexistent_zz")\nraise ValueError("late")\n',
+    'pathapp_raises': 'import sys\nsys.path.append("/nonexistent_yy")\nimport nonexistent_module_xv12d\n',
+    'pathins_sysexit': 'import sys\nsys.path.insert(0, "/nonexistent_zz")\nraise SystemExit(5)\n',
     'raises': 'raise ValueError("at import")\n',
     'importerror': 'import nonexistent_module_xv12b\n',
     'syntax': 'def (:\n',
@@ -238,15 +253,22 @@ class ImportSpec(Spec):
     title = 'sys.path and globals after utils.import_module_from_path'
 
     def __init__(self):
-        self.max_len = 3
-        self.rule = ('module kind %r x {top-level, inside a package, inside a sub-package} x index in {-1, 0}; non-trivial '
-                     '= the import fails or the module edits sys.path' % (list(MODS),))
+        self.max_len = 4
+        self.rule = ('module kind %r x {top-level, inside a package, inside a sub-package} x index in {-1, 0} x search '
+                     'directory already on sys.path {absent, front, second, end} (present only for modules that leave '
+                     'sys.path alone); sys.path compared as a list; non-trivial = the import fails, the module edits '
+                     'sys.path or the directory was already there' % (list(MODS),))
 
     def histories(self, stats):
         for k in MODS:
             for where in ('top', 'pkg', 'subpkg'):
                 for index in (-1, 0):
-                    yield (k, where, index)
+                    for pre in ('absent', 'front', 'second', 'end'):
+                        # the directory that has to go on sys.path is already there (the caller put it
+                        # there): documented as a heuristic only when the module edits sys.path as well
+                        if pre != 'absent' and k not in ('good', 'raises', 'importerror', 'syntax', 'sysexit'):
+                            continue
+                        yield (k, where, index, pre)
 
     def hist_cost(self, hist):
         return 0
@@ -254,7 +276,7 @@ class ImportSpec(Spec):
     def run_case(self, hist):
         from xdoctest import utils
         import importlib
-        kind, where, index = hist
+        kind, where, index, pre = hist
         atoms = []
         with harness.scratch_dir('c12i') as d:
             sub = {'top': '', 'pkg': 'pkgq12', 'subpkg': os.path.join('pkgq12', 'sub')}[where]
@@ -268,6 +290,13 @@ class ImportSpec(Spec):
             with open(p, 'w') as f:
                 f.write(MODS[kind])
             importlib.invalidate_caches()
+            outer = list(sys.path)
+            if pre == 'front':
+                sys.path.insert(0, d)
+            elif pre == 'second':
+                sys.path.insert(1, d)
+            elif pre == 'end':
+                sys.path.append(d)
             before = snap()
             try:
                 try:
@@ -284,20 +313,23 @@ class ImportSpec(Spec):
                         atoms.append({'sig': 'import:good-module-fails', 'msg': repr(ex)})
                 after = snap()
                 exp = dict(before)
-                if how == 'ok' and kind == 'pathins':
+                # what the module itself did to sys.path stays (whether or not it then failed); the
+                # library's temporary entry must be gone
+                if kind.startswith('pathins'):
                     exp['sys.path'] = ['/nonexistent_zz'] + before['sys.path']
-                if how == 'ok' and kind == 'pathappend':
+                if kind.startswith('pathapp'):
                     exp['sys.path'] = before['sys.path'] + ['/nonexistent_yy']
                 for k in diff(exp, after):
                     atoms.append({'sig': 'leak:%s:after-import-%s' % (k, 'ok' if how == 'ok' else 'failure'),
-                                  'msg': 'import of a %s module (%s, index=%d) %s; %s: %r -> %r' % (
-                                      kind, where, index, how, k, exp[k] if k != 'sys.path' else [x for x in exp[k] if x not in after[k]],
+                                  'msg': 'import of a %s module (%s, index=%d, search dir already on sys.path: %s) %s; %s: %r -> %r' % (
+                                      kind, where, index, pre, how, k, exp[k] if k != 'sys.path' else [x for x in exp[k] if x not in after[k]],
                                       after[k] if k != 'sys.path' else [x for x in after[k] if x not in exp[k]])})
             finally:
                 restore(before)
+                sys.path[:] = outer
                 harness.forget_modules(name, 'pkgq12')
-        return {'atoms': atoms, 'outcome': how, 'case': {'module': MODS[kind], 'where': where, 'index': index},
-                'nontrivial': kind != 'good'}
+        return {'atoms': atoms, 'outcome': how, 'case': {'module': MODS[kind], 'where': where, 'index': index, 'pre': pre},
+                'nontrivial': kind != 'good' or pre != 'absent'}
 
 
 def specs(tier):
